@@ -29,6 +29,8 @@ RecOK == ri > 0 =>
             Is(r.within_bound, 1, "phase_align.within_interpolation_error")
       [] r.kind = "forms" ->       \* the cycles argument as label vector / container / iterator (created with any mode)
             /\ Is(r.ref_raised, 0, "cycles_argument.container_form_is_accepted")
-            /\ Is(r.same, 1, "cycles_argument.mode_argument_governs_for_every_form")
+            /\ IF r.form = "value"
+               THEN Is(r.same, 1, "get_cycle_stat.augmented_statistic_is_the_function_over_the_augmented_samples")
+               ELSE Is(r.same, 1, "cycles_argument.mode_argument_governs_for_every_form")
       [] OTHER -> Bad("unknown record kind")
 =============================================================================
